@@ -487,6 +487,23 @@ where
 }
 
 /// Folds the generic parts of a run into an outcome (faults fired, virtual time, panics in /repo code).
+/// A scenario whose own legal set-up steps failed (start the server, connect with the generated
+/// certificates, register under a valid name, a first exchange) in a family that injects no
+/// outage. On a network that loses nothing this cannot be blamed on the fault mix: the streams the
+/// property speaks about could not even come into existence, and the run is reported under the
+/// property being checked. (On the unchanged tree this never happens; with datagram loss the run
+/// stays inconclusive.)
+pub fn setup_failed(out: &mut Outcome, prop: &str, family: &str, net: &NetCfg, e: &anyhow::Error) {
+    let text = format!("{e:#}");
+    out.log.push(format!("setup error: {text}"));
+    if net.loss_ppm == 0 {
+        let sig: String = text.chars().filter(|c| !c.is_ascii_digit()).take(60).collect();
+        out.violate(prop, "setup-failed", &format!("{family}:{sig}"), format!("a legal set-up step of the scenario failed on a network that loses nothing: {text}"));
+    } else {
+        out.inconclusive = true;
+    }
+}
+
 pub fn fold<T>(out: &mut Outcome, prop: &str, r: &RunResult<T>) {
     out.virtual_ms += r.virtual_ms;
     out.fault_n("datagram_lost", r.net.dropped);
